@@ -45,7 +45,7 @@ describe(
         "n_variables <= n_functions; block cursors advance by the loop's own sizes; the minimal-couplings cache "
         "is keyed by the whole (variables, functions) request."
     ),
-    decided=["7.1 dimensions/transposes of the solve routines", "7.2 sign agreement", "7.3 -I in all representations", "7.4 mode dispatch and block placement", "7.5 minimal-couplings cache key"],
+    decided=["7.1 dimensions/transposes of the solve routines", "7.2 sign agreement", "7.3 -I in all representations", "7.4 mode dispatch and block placement", "7.5 minimal-couplings cache key", "7.7 local data reset to the given data whether or not the discipline executes"],
     not_decided=["conditioning and linear-solver accuracy", "equality with the closed-form implicit-function expression"],
     trusted=["scipy.sparse.linalg.factorized / GEMSEO linear solvers solve A x = b"],
 )
